@@ -10,6 +10,7 @@ import (
 	"github.com/ipld/go-ipld-prime/datamodel"
 	"github.com/ipld/go-ipld-prime/fluent/qp"
 	"testing"
+	"time"
 
 	"github.com/gogo/protobuf/proto"
 	pb "github.com/ipfs/boxo/ipld/unixfs/pb"
@@ -593,12 +594,36 @@ func TestC09_P_MetadataTimeBuilder(t *testing.T) {
 		default:
 			typ := rapid.SampledFrom([]int64{data.Data_File, data.Data_Directory, data.Data_HAMTShard, data.Data_Raw, data.Data_Symlink, data.Data_Metadata}).Draw(t, "type")
 			mode := rapid.OneOf(rapid.SampledFrom([]int{0, 0o644, 0o755, 0o100644, 0xFFF, 0x1000, 0x7FFFFFFF}), rapid.IntRange(0, 1<<31-1)).Draw(t, "mode")
-			n, err := builder.BuildUnixFS(func(b *builder.Builder) {
-				builder.DataType(b, typ)
-				builder.Permissions(b, mode)
+			// one message in three also gets a modification time from a time.Time: any instant a time.Time holds - before the
+			// epoch with a fraction of a second, centuries away in either direction, the zero Time
+			withTime := rapid.IntRange(0, 2).Draw(t, "withTime") == 0
+			var when time.Time
+			if withTime {
+				sec := rapid.SampledFrom([]int64{0, 1, -1, -1000000, -86400 * 365 * 300, 1 << 31, 1 << 33, 20000000000, 253402300799, -62135596800}).Draw(t, "timeSecs")
+				when = time.Unix(sec, int64(rapid.SampledFrom([]int{0, 1, 500000000, 999999999}).Draw(t, "timeNanos")))
+			}
+			var n data.UnixFSData
+			var err error
+			must(t, "BuildUnixFS", func() {
+				n, err = builder.BuildUnixFS(func(b *builder.Builder) {
+					builder.DataType(b, typ)
+					builder.Permissions(b, mode)
+					if withTime {
+						builder.Mtime(b, func(tb builder.TimeBuilder) { builder.Time(tb, when) })
+					}
+				})
 			})
 			if err != nil {
-				t.Fatalf("BuildUnixFS: %v", err)
+				t.Fatalf("BuildUnixFS (mtime %v): %v", when, err)
+			}
+			if withTime {
+				var ref pb.Data
+				if err := proto.Unmarshal(data.EncodeUnixFSData(n), &ref); err != nil {
+					t.Fatalf("C09: reference decoder rejects a message built with builder.Time(%v): %v", when, err)
+				}
+				if ref.Mtime == nil || ref.Mtime.GetSeconds() != when.Unix() || int(ref.Mtime.GetNanos()) != when.Nanosecond() {
+					t.Fatalf("C09: builder.Time(%v = %d s + %d ns): the reference decoder reads mtime {%v}", when, when.Unix(), when.Nanosecond(), ref.Mtime)
+				}
 			}
 			if !n.FieldMode().Exists() || n.FieldMode().Must().Int() != int64(mode&0xFFF) {
 				t.Fatalf("C09: builder Permissions(%o) stored %v, want %o", mode, n.FieldMode(), mode&0xFFF)
